@@ -270,9 +270,10 @@ def pickCharDeg (o : Oracles) (char extDeg : Option Nat) (mo : Nat) : Except Err
     pure (leastPrimeGe (ceilRoot mo e), e)
   | some c =>
     match extDeg with
-    | none => do
-      let e ← o.ceilLog c mo
-      pure (c, e)
+    | none =>
+      -- exact since the repo fix: `ext_deg = 0; while char**ext_deg < min_order: ext_deg += 1`, ValueError unless
+      -- char > 1 and min_order > 0 (before: `math.ceil(math.log(min_order, char))`, a floating-point oracle)
+      if c ≤ 1 ∨ mo = 0 then .error .valueError else pure (c, clog c mo)
     | some e => pure (c, e)
 
 /-- no modulus ≙ sectypes.py:601-622; also returns the new `min_order` -/
